@@ -12,7 +12,7 @@ from ..cfg import CFG, cfg_of
 from ..model import (UNKNOWN, AnchorError, Func, Project, UnknownIdiom, attr_chain, func_owner_class, local_names, short,
                      walk_no_nested)
 from .c13_helpers import Defs, resolve_alias
-from .common import strip_await, walk_self
+from .common import implied, strip_await, walk_self
 
 RESPONSE = 'falcon.response.Response'
 ASGI_RESPONSE = 'falcon.asgi.response.Response'
@@ -375,6 +375,319 @@ def raises_only(cfg: CFG, start: int) -> bool:
         return False
     ends = [cfg.node(i) for i in seen if not any(l != 'exc' for (_y, l) in cfg.succ[i])]
     return bool(ends) and all(n.kind == 'stmt' and isinstance(n.ast, ast.Raise) for n in ends)
+
+
+# ---------------------------------------------------------------------------
+# provenance of a text value relative to one parameter (C15 R15, C16 R8)
+# ---------------------------------------------------------------------------
+
+_PATHMODS = ('os.path', 'posixpath', 'ntpath')
+
+# callee -> one line of reason.  Frozen look-alike tables: str -> str functions
+# that look like "tidying" but are NOT the identity on every str.
+IDENTITY_CALLS = {
+    'os.fspath': 'identity on str (a PathLike yields its own path text)',
+    'builtins.str': 'identity on str',
+}
+NARROWING_CALLS = {
+    'unicodedata.normalize': 'maps canonically equivalent but different code point sequences to one text',
+    'falcon.util.misc.secure_filename': 'lossy ASCII transliteration',
+    'os.fsencode': 'changes the type (and, with surrogateescape, the text)',
+    'os.fsdecode': 'identity only on str; listed with fsencode',
+}
+for _m in _PATHMODS:
+    NARROWING_CALLS.update({
+        _m + '.basename': 'drops everything up to the last separator',
+        _m + '.dirname': 'drops the last component',
+        _m + '.normpath': 'collapses separators and dot segments',
+        _m + '.abspath': 'prepends the working directory and normalises',
+        _m + '.realpath': 'resolves links and normalises',
+        _m + '.relpath': 're-expresses the path relative to another directory',
+        _m + '.expanduser': 'rewrites a leading ~',
+        _m + '.expandvars': 'substitutes $NAME',
+        _m + '.split': 'splits at the last separator',
+        _m + '.splitext': 'splits off the extension',
+        _m + '.splitdrive': 'splits off the drive',
+        _m + '.join': 'prepends / replaces components',
+        _m + '.normcase': 'case-folds and swaps separators on Windows',
+    })
+REWRITING_CALLS = {
+    're.sub': 'substitution', 're.subn': 'substitution', 'html.escape': 'escaping', 'html.unescape': 'unescaping',
+    'urllib.parse.quote': 'percent-encoding', 'urllib.parse.quote_plus': 'percent-encoding',
+    'urllib.parse.unquote': 'percent-decoding', 'urllib.parse.unquote_plus': 'percent-decoding',
+    'falcon.util.uri.encode': 'percent-encoding', 'falcon.util.uri.encode_value': 'percent-encoding',
+    'falcon.util.uri.encode_check_escaped': 'percent-encoding', 'falcon.util.uri.encode_value_check_escaped': 'percent-encoding',
+    'falcon.util.uri.decode': 'percent-decoding',
+}
+NARROWING_METHODS = {'strip', 'lstrip', 'rstrip', 'split', 'rsplit', 'partition', 'rpartition', 'splitlines', 'lower', 'upper',
+                     'casefold', 'title', 'capitalize', 'swapcase', 'removeprefix', 'removesuffix'}
+REWRITING_METHODS = {'replace', 'translate', 'encode', 'decode', 'format', 'join', 'expandtabs', 'zfill', 'ljust', 'rjust', 'center'}
+# classes no str is an instance of (an isinstance-true edge leaves the str domain)
+DISJOINT_FROM_STR = {'os.PathLike', 'pathlib.Path', 'pathlib.PurePath', 'pathlib.PurePosixPath', 'pathlib.PosixPath',
+                     'pathlib.PureWindowsPath', 'pathlib.WindowsPath', 'builtins.bytes', 'builtins.bytearray', 'builtins.memoryview'}
+_TYPEISH = {'builtins.isinstance', 'builtins.type', 'builtins.hasattr', 'builtins.issubclass', 'builtins.callable', 'builtins.getattr'}
+
+
+class Origin:
+    """What a text expression is relative to the tracked parameter:
+    derived (built from it at all) and the list of value-changing steps
+    (kind 'narrow' | 'rewrite', ast node, reason) on the way."""
+
+    __slots__ = ('derived', 'xforms')
+
+    def __init__(self, derived=False, xforms=None):
+        self.derived = derived
+        self.xforms = list(xforms or [])
+
+    def merge(self, other: 'Origin') -> 'Origin':
+        seen = {id(x[1]) for x in self.xforms}
+        return Origin(self.derived or other.derived, self.xforms + [x for x in other.xforms if id(x[1]) not in seen])
+
+    def step(self, kind, node, reason) -> 'Origin':
+        return Origin(True, [(kind, node, reason)] + self.xforms)
+
+    @property
+    def identical(self) -> bool:
+        return self.derived and not self.xforms
+
+    def kinds(self) -> Set[str]:
+        return {x[0] for x in self.xforms}
+
+    def describe(self) -> List[str]:
+        return ['%s: %s (%s)' % (k, short(n, 90), why) for (k, n, why) in self.xforms]
+
+
+class Provenance:
+    """Is the text of an expression the function's parameter ITSELF (for every
+    str argument), the parameter after a value-changing step, or unrelated?
+
+    Reads: copies through locals (may-reaching definitions over the CFG),
+    the identity calls of IDENTITY_CALLS, `x[:]`, conditional expressions,
+    one level of same-package helper (its returns relative to its parameter).
+    Definitions and branches that only execute for a non-str argument
+    (`isinstance(v, str)` false / `isinstance(v, os.PathLike)` true /
+    `hasattr(v, '__fspath__')` true) are outside the str domain and skipped.
+    Everything else that touches the tracked value is UnknownIdiom."""
+
+    def __init__(self, p: Project, f: Func, param: Optional[str], depth: int = 0, root_local: Optional[str] = None):
+        """Track the parameter `param`, or (root_local) every read of that local
+        as it stands, whatever defined it."""
+        self.p, self.f, self.param, self.depth, self.root_local = p, f, param, depth, root_local
+        if (param is None) == (root_local is None):
+            raise ValueError('exactly one of param / root_local')
+        if param is not None and param not in f.params():
+            raise AnchorError('%s has no parameter %s' % (f.qual, param))
+        self.rd = reaching(p, f)
+        self.cfg = self.rd.cfg
+        self._memo: Dict[int, Origin] = {}
+        self._active: Set[int] = set()
+        for n in ast.walk(f.node):
+            if isinstance(n, ast.NamedExpr):
+                raise UnknownIdiom('%s: assignment expression %s (definitions are read from statements only)' % (f.qual, short(n)))
+            if isinstance(n, (ast.Global, ast.Nonlocal)):
+                raise UnknownIdiom('%s: global/nonlocal declaration' % f.qual)
+            if isinstance(n, ast.Delete) and any(isinstance(t, ast.Name) for t in n.targets):
+                raise UnknownIdiom('%s: del of a local' % f.qual)
+
+    # ---- resolution
+    def _q(self, fexpr) -> Optional[str]:
+        return resolve_alias(self.p, self.f.module, fexpr, self.f)
+
+    # ---- type dispatch
+    def _nonstr_atom(self, nid: int):
+        """atom(e) -> True when e being TRUE means the tracked parameter is not a str."""
+        def is_root(x):
+            return isinstance(x, ast.Name) and self._name(x.id, nid).identical
+
+        def classes(e) -> Optional[List[Optional[str]]]:
+            elts = e.elts if isinstance(e, ast.Tuple) else [e]
+            return [self._q(x) for x in elts]
+
+        def pos(e):   # e true => not str
+            if isinstance(e, ast.Call) and not e.keywords and len(e.args) == 2 and is_root(e.args[0]):
+                q = self._q(e.func)
+                if q == 'builtins.isinstance':
+                    cs = classes(e.args[1])
+                    return all(c in DISJOINT_FROM_STR for c in cs)
+                if q == 'builtins.hasattr' and isinstance(e.args[1], ast.Constant) and e.args[1].value == '__fspath__':
+                    return True
+            return False
+
+        def neg(e):   # e false => not str
+            if isinstance(e, ast.Call) and not e.keywords and len(e.args) == 2 and is_root(e.args[0]) and self._q(e.func) == 'builtins.isinstance':
+                return 'builtins.str' in classes(e.args[1])
+            return False
+        return pos, neg
+
+    def _edge_excludes_str(self, test, truth: bool, nid: int) -> bool:
+        pos, neg = self._nonstr_atom(nid)
+        return implied(test, truth, pos) is True or implied(test, truth, neg) is False
+
+    def _typeish(self, test) -> bool:
+        return any(isinstance(x, ast.Call) and self._q(x.func) in _TYPEISH for x in walk_self(test))
+
+    def _def_outside_str(self, d: Def) -> Optional[bool]:
+        """True: the definition only executes for a non-str argument; None: it
+        sits under a type test the rule cannot read; False: ordinary."""
+        unread = False
+        for (t, y, l) in controlling_edges(self.cfg, d.node):
+            test = self.cfg.node(t).ast
+            if self._edge_excludes_str(test, l == 'T', t):
+                return True
+            if self._typeish(test):
+                unread = True
+        return None if unread else False
+
+    # ---- classification
+    def _name(self, name: str, nid: int) -> Origin:
+        if self.root_local is not None and name == self.root_local:
+            return Origin(True)
+        out = Origin()
+        for d in self.rd.at(nid, name):
+            out = out.merge(self._def(d))
+        return out
+
+    def _def(self, d: Def) -> Origin:
+        if d.kind == 'param':
+            return Origin(self.param is not None and d.name == self.param)
+        if d.idx in self._memo:
+            return self._memo[d.idx]
+        if d.idx in self._active:
+            return Origin()          # a loop-carried definition: the acyclic part decides
+        self._active.add(d.idx)
+        try:
+            if d.kind == 'assign':
+                dom = self._def_outside_str(d)
+                if dom is True:
+                    r = Origin()
+                else:
+                    r = self.classify(d.value, d.node)
+                    if dom is None and r.xforms:
+                        raise UnknownIdiom('%s: %s = %s sits under a type test the rule cannot read' % (self.f.qual, d.name, short(d.value)))
+            elif d.kind == 'aug':
+                inner = self._name(d.name, d.node).merge(self.classify(d.value.value, d.node))
+                r = inner.step('rewrite', d.value, 'augmented assignment') if inner.derived else Origin()
+            elif d.kind == 'import':
+                r = Origin()
+            else:
+                src = self.classify_any(d.value, d.node) if d.value is not None else Origin()
+                if src.derived:
+                    raise UnknownIdiom('%s: %s is bound by %s from the tracked value' % (self.f.qual, d.name, d.kind))
+                r = Origin()
+        finally:
+            self._active.discard(d.idx)
+        self._memo[d.idx] = r
+        return r
+
+    def classify_any(self, e, nid: int) -> Origin:
+        """Does anything inside e derive from the parameter (no judgement of the shape)?"""
+        out = Origin()
+        for x in walk_self(e):
+            if isinstance(x, ast.Name) and isinstance(x.ctx, ast.Load):
+                out = out.merge(self._name(x.id, nid))
+        return out
+
+    def classify(self, e, nid: int) -> Origin:
+        if isinstance(e, ast.Constant):
+            return Origin()
+        if isinstance(e, ast.Name):
+            return self._name(e.id, nid)
+        if isinstance(e, ast.IfExp):
+            body_out = self._edge_excludes_str(e.test, True, nid)
+            else_out = self._edge_excludes_str(e.test, False, nid)
+            b = Origin() if body_out else self.classify(e.body, nid)
+            o = Origin() if else_out else self.classify(e.orelse, nid)
+            r = b.merge(o)
+            if r.xforms and not (body_out or else_out) and self._typeish(e.test):
+                raise UnknownIdiom('%s: %s dispatches on a type test the rule cannot read' % (self.f.qual, short(e)))
+            return r
+        if isinstance(e, ast.Subscript):
+            base = self.classify(e.value, nid)
+            if not base.derived:
+                if self.classify_any(e.slice, nid).derived:
+                    raise UnknownIdiom('%s: the tracked value is used as an index in %s' % (self.f.qual, short(e)))
+                return Origin()
+            s = e.slice
+            if isinstance(s, ast.Slice) and s.lower is None and s.upper is None and s.step is None:
+                return base
+            return base.step('narrow', e, 'keeps only part of the text / of the split result')
+        if isinstance(e, (ast.BinOp, ast.JoinedStr)):
+            inner = self.classify_any(e, nid)
+            return inner.step('rewrite', e, 'builds a new text around the value') if inner.derived else Origin()
+        if isinstance(e, ast.Call):
+            return self._call(e, nid)
+        if isinstance(e, (ast.Tuple, ast.List)):
+            inner = Origin()
+            for x in e.elts:
+                inner = inner.merge(self.classify(x, nid))
+            if inner.derived:
+                raise UnknownIdiom('%s: the tracked value is packed into %s' % (self.f.qual, short(e)))
+            return Origin()
+        if self.classify_any(e, nid).derived:
+            raise UnknownIdiom('%s: cannot read how %s uses the tracked value' % (self.f.qual, short(e)))
+        return Origin()
+
+    def _call(self, c: ast.Call, nid: int) -> Origin:
+        fn = c.func
+        args = list(c.args) + [k.value for k in c.keywords]
+        if any(isinstance(a, ast.Starred) for a in c.args) or any(k.arg is None for k in c.keywords):
+            if self.classify_any(c, nid).derived:
+                raise UnknownIdiom('%s: star-arguments in %s' % (self.f.qual, short(c)))
+            return Origin()
+        # method of the tracked text
+        if isinstance(fn, ast.Attribute):
+            recv = self.classify(fn.value, nid) if self._q(fn) is None else None
+            if recv is not None and recv.derived:
+                if fn.attr in NARROWING_METHODS:
+                    return recv.step('narrow', c, 'str.%s is not the identity' % fn.attr)
+                if fn.attr in REWRITING_METHODS:
+                    return recv.step('rewrite', c, 'str.%s rewrites the text' % fn.attr)
+                raise UnknownIdiom('%s: method %s of the tracked value is not in the tables' % (self.f.qual, short(c)))
+        q = self._q(fn)
+        inner = Origin()
+        for a in args:
+            inner = inner.merge(self.classify(a, nid))
+        if not inner.derived:
+            return Origin()
+        if q in IDENTITY_CALLS and len(c.args) == 1 and not c.keywords:
+            return inner
+        if q == 'typing.cast' and len(c.args) == 2 and not c.keywords:
+            return self.classify(c.args[1], nid)
+        if q in NARROWING_CALLS:
+            return inner.step('narrow', c, NARROWING_CALLS[q])
+        if q in REWRITING_CALLS:
+            return inner.step('rewrite', c, REWRITING_CALLS[q])
+        if q in ('builtins.str.strip', 'builtins.str.lower', 'builtins.str.upper', 'builtins.str.casefold'):
+            return inner.step('narrow', c, '%s is not the identity' % q)
+        g = self.p.funcs.get(q) if q else None
+        if g is not None and self.depth < 2 and not g.is_async and not c.keywords:
+            return self._through(g, c, nid, inner)
+        raise UnknownIdiom('%s: %s takes the tracked value and is not in the tables' % (self.f.qual, short(c)))
+
+    def _through(self, g: Func, c: ast.Call, nid: int, inner: Origin) -> Origin:
+        """Look through a same-package helper: its returns relative to the one
+        parameter that receives the tracked value."""
+        params = g.params()
+        a = g.node.args
+        if a.vararg or a.kwarg or g.cls is not None:
+            raise UnknownIdiom('%s: helper call %s (signature not read)' % (self.f.qual, short(c)))
+        idx = [i for i, x in enumerate(c.args) if self.classify_any(x, nid).derived]
+        if len(idx) != 1 or idx[0] >= len(params):
+            raise UnknownIdiom('%s: helper call %s passes the tracked value more than once' % (self.f.qual, short(c)))
+        argo = self.classify(c.args[idx[0]], nid)
+        sub = Provenance(self.p, g, params[idx[0]], self.depth + 1)
+        out = None
+        for n in sub.cfg.live_nodes():
+            if n.kind == 'stmt' and isinstance(n.ast, ast.Return):
+                if n.ast.value is None:
+                    raise UnknownIdiom('%s: helper %s returns nothing on some path' % (self.f.qual, g.qual))
+                r = sub.classify(n.ast.value, n.id)
+                if not r.derived:
+                    raise UnknownIdiom('%s: helper %s returns something unrelated to its argument on some path' % (self.f.qual, g.qual))
+                out = r if out is None else out.merge(r)
+        if out is None:
+            raise UnknownIdiom('%s: helper %s has no return' % (self.f.qual, g.qual))
+        return Origin(True, out.xforms + argo.xforms)
 
 
 def check(run):
